@@ -60,7 +60,36 @@ class Gen:
         return unit(self.seed, "gen", key)
 
 
-def base_scenario(g, selections=MEDIUM, nets=NETS_SETS, vm_variants=(VM_DEFAULT,), modes=("lazy", "lazy", "eager")):
+def generated_suite(g, tier):
+    """Pick one of a small pool of generated suites (few per run so that their cold parses are amortised)."""
+    import os
+    try:
+        base = int(os.environ.get("VERIF_SEED", "0"))
+    except ValueError:
+        base = 0
+    k = 6 if tier == "quick" else 48
+    return 1000 * base + g.pick("suite", list(range(k)))
+
+
+def base_scenario(g, selections=MEDIUM, nets=NETS_SETS, vm_variants=(VM_DEFAULT,), modes=("lazy", "lazy", "eager"),
+                  generated_p=0.0, tier="quick"):
+    if generated_p and g.chance("generated", generated_p):
+        from travsim import gensuite
+        suite = generated_suite(g, tier)
+        spec = gensuite.make_spec(suite)
+        leaves = [l["name"] for l in spec["leaves"]]
+        sel = g.pick("gsel", ["leaves..gleaves", "leaves..gleaves", "leaves..gleaves.." + g.pick("gleaf", leaves)])
+        return {
+            "generated": suite,
+            "tests": sel,
+            "vm_strs": dict(VM_DEFAULT),
+            "nets": g.pick("gnets", ["net1", "net1 net2", "net1 net2 net3", "net2 net4", "cluster1.net6 cluster1.net7",
+                                     "net1 cluster1.net6", "net1 net2 net3 net4"]),
+            "mode": g.pick("mode", list(modes)),
+            "params": dict(BASE_PARAMS),
+            "families": {"durations": g.pick("durations", ["ties", "ties", "spread", "unit"])},
+            "epochs": [{}],
+        }
     sel = g.pick("selection", selections)[0]
     scen = {
         "tests": sel,
@@ -79,7 +108,7 @@ def warm_key(scen):
     params = tuple(sorted((k, str(v)) for k, v in scen.get("params", {}).items()))
     epochs = tuple(tuple(sorted((k, str(v)) for k, v in e.get("params", {}).items())) + (str(e.get("replay")),)
                    for e in scen.get("epochs", [{}]))
-    return (scen.get("suite_path"), scen["tests"], tuple(sorted(scen["vm_strs"].items())), scen["nets"],
+    return (scen.get("suite_path"), scen.get("generated"), scen["tests"], tuple(sorted(scen["vm_strs"].items())), scen["nets"],
             scen.get("mode"), params, epochs)
 
 
@@ -95,7 +124,7 @@ def plan_for(prop, seed, tier="quick"):
 
 def profile_C04(g, tier):
     sels = SMALL if tier == "quick" else MEDIUM
-    scen = base_scenario(g, selections=sels, nets=[n for n in NETS_SETS if " " in n])
+    scen = base_scenario(g, selections=sels, nets=[n for n in NETS_SETS if " " in n], generated_p=0.15, tier=tier)
     fam = scen["families"]
     combo = g.pick("retry", [{}, {}, {"max_tries": "2"}, {"max_tries": "3"},
                              {"max_tries": "3", "max_concurrent_tries": "1"},
@@ -126,7 +155,7 @@ def profile_C03(g, tier):
 
 def profile_C01(g, tier):
     sels = SMALL if tier == "quick" else MEDIUM
-    scen = base_scenario(g, selections=sels)
+    scen = base_scenario(g, selections=sels, generated_p=0.15, tier=tier)
     fam = scen["families"]
     kind = g.pick("kind", ["plain", "fail", "populate", "populate", "crash", "crash", "cleanup", "scope", "residue"])
     scen["kind"] = kind
@@ -163,7 +192,7 @@ def profile_C01(g, tier):
 
 def profile_C02(g, tier):
     sels = SMALL if tier == "quick" else MEDIUM
-    scen = base_scenario(g, selections=sels)
+    scen = base_scenario(g, selections=sels, generated_p=0.15, tier=tier)
     fam = scen["families"]
     kind = g.pick("kind", ["plain", "outcomes", "outcomes", "persistent", "persistent", "lost", "retry-create", "dry", "populate"])
     scen["kind"] = kind
@@ -194,7 +223,7 @@ def profile_C02(g, tier):
 def profile_C08(g, tier):
     sels = SMALL if tier == "quick" else MEDIUM
     scen = base_scenario(g, selections=sels, nets=[n for n in NETS_SETS if " " in n],
-                         vm_variants=VM_VARIANTS)
+                         vm_variants=VM_VARIANTS, generated_p=0.15, tier=tier)
     fam = scen["families"]
     fam["p_fail"] = g.pick("p_fail", [0.0, 0.2])
     if g.chance("retry", 0.3):
@@ -208,7 +237,7 @@ def profile_C08(g, tier):
 
 def profile_C10(g, tier):
     sels = SMALL if tier == "quick" else MEDIUM
-    scen = base_scenario(g, selections=sels)
+    scen = base_scenario(g, selections=sels, generated_p=0.15, tier=tier)
     fam = scen["families"]
     kind = g.pick("kind", ["retry", "retry", "retry", "stop", "rerun", "invalid", "replay", "replay", "verdict"])
     scen["kind"] = kind
@@ -265,7 +294,7 @@ def profile_C05(g, tier):
     scen = base_scenario(g, selections=sels,
                          nets=["net1", "net1 net2", "net1 net2 net3", "net1 net2 net3 net4", "net2 net4",
                                "cluster1.net6 cluster1.net7", "net1 cluster1.net6 cluster1.net7", "net3 net5 net1"],
-                         modes=("lazy", "lazy", "lazy", "eager"))
+                         modes=("lazy", "lazy", "lazy", "eager"), generated_p=0.35, tier=tier)
     fam = scen["families"]
     kind = g.pick("kind", ["plain", "plain", "fail", "retry", "populate", "copy", "scope"])
     scen["kind"] = kind
@@ -300,7 +329,8 @@ GRAPH_VMS = [
 
 def graph_scenario(g, tier, props):
     sels = [s for s in SELECTIONS if s[1] <= (3 if tier == "quick" else 5)]
-    scen = base_scenario(g, selections=sels, nets=GRAPH_NETS, vm_variants=GRAPH_VMS, modes=("lazy", "lazy", "eager"))
+    scen = base_scenario(g, selections=sels, nets=GRAPH_NETS, vm_variants=GRAPH_VMS, modes=("lazy", "lazy", "eager"),
+                         generated_p=0.4, tier=tier)
     scen["graph_props"] = props
     scen["families"]["durations"] = g.pick("gdur", ["ties", "spread", "unit"])
     return scen
